@@ -16,7 +16,7 @@ TInit == tid \in 1..NTraces /\ l = 0
 TStep ==
   LET tr == Traces[tid]
       cf == [c |-> tr.c, rep |-> tr.rep, e |-> tr.e, method |-> tr.method, clean |-> tr.clean,
-             bnd |-> tr.bnd, nan |-> tr.nan]
+             bnd |-> tr.bnd, nan |-> tr.nan, rs |-> IF "rs" \in DOMAIN tr THEN tr.rs ELSE 0]
   IN /\ l = 0 /\ l' = 1 /\ tid' = tid
      /\ ChkT(tr, 0, "configuration: coordinate not strictly monotone", Monotone(tr.c) /\ Len(tr.c) >= 2)
      /\ \A p \in 1..Len(tr.obs) :
